@@ -83,6 +83,8 @@ class Contract:
         inline_calls=(),
         vararg=None,
         defaults=None,
+        prologue=(),
+        at=None,
     ):
         self.target = target  # "module:qualname" (code) or lemma name
         self.params = params  # ordered dict name -> type string
@@ -108,6 +110,8 @@ class Contract:
         self.canary = canary
         self.inline_calls = set(inline_calls)
         self.vararg = vararg
+        self.at = {" ".join(k.split()): _clauses(v) for k, v in (at or {}).items()}  # ghost calls before matching statements
+        self.prologue = list(prologue)  # ghost statements executed at function entry
         self.defaults = dict(defaults or {})
 
     @property
